@@ -32,8 +32,8 @@ struct Sym {
 };
 struct World { Sym o[2]; std::string str() const { return o[0].str() + " | " + o[1].str(); } };
 
-enum OpK { O_READ_G1, O_READ_G2, O_READ_CORRUPT, O_READ_MISSING, O_FIT, O_FIT_INVALID, O_WKEY1, O_WKEY2, O_WKEY_BAD, O_RKEY1, O_CONVOLVE, O_PERMUTE, O_PERMUTE_BAD, O_MOVE_CONSTRUCT, O_MOVE_ASSIGN, O_SELF_ASSIGN, O_COMPARE, O_WRITE_MEM, O_WRITE_BADPATH, O_EVAL, O_RECREATE, O_NKINDS };
-static const char* OPN[] = {"read_fits_mem(G1)", "read_fits_mem(G2)", "read_fits_mem(corrupt)", "read_fits(missing)", "fit(valid)", "fit(invalid)", "write_key(K1,v)", "write_key(K2,42)", "write_key(ORDER9,x)", "remove_key(K1)", "convolve", "permute(reverse)", "permute(invalid)", "move-construct other<-this", "move-assign this<-other", "self move-assign", "==,!=", "write_fits_mem", "write_fits(unwritable)", "evaluate", "destroy+recreate"};
+enum OpK { O_READ_G1, O_READ_G2, O_READ_CORRUPT, O_READ_MISSING, O_FIT, O_FIT_INVALID, O_WKEY1, O_WKEY2, O_WKEY_BAD, O_RKEY1, O_CONVOLVE, O_CONVOLVE_BAD_DIM, O_CONVOLVE_ONE_KNOT, O_PERMUTE, O_PERMUTE_BAD, O_MOVE_CONSTRUCT, O_MOVE_ASSIGN, O_SELF_ASSIGN, O_COMPARE, O_WRITE_MEM, O_WRITE_BADPATH, O_EVAL, O_RECREATE, O_NKINDS };
+static const char* OPN[] = {"read_fits_mem(G1)", "read_fits_mem(G2)", "read_fits_mem(corrupt)", "read_fits(missing)", "fit(valid)", "fit(invalid)", "write_key(K1,v)", "write_key(K2,42)", "write_key(ORDER9,x)", "remove_key(K1)", "convolve", "convolve(dim=ndim)", "convolve(one kernel knot)", "permute(reverse)", "permute(invalid)", "move-construct other<-this", "move-assign this<-other", "self move-assign", "==,!=", "write_fits_mem", "write_fits(unwritable)", "evaluate", "destroy+recreate"};
 struct Op { int kind; int obj; std::string label() const { return std::string(obj ? "b." : "a.") + OPN[kind]; } };
 
 static void wk(std::vector<std::pair<std::string, std::string>>& aux, const std::string& k, const std::string& v) { for (auto& a : aux) if (a.first == k) { a.second = v; return; } aux.push_back({k, v}); }
@@ -50,8 +50,10 @@ static int model_step(World& w, const Op& op) {
     case O_WKEY_BAD: return 1;
     case O_RKEY1: for (size_t i = 0; i < s.aux.size(); i++) if (s.aux[i].first == "K1") { s.aux.erase(s.aux.begin() + i); break; } return 0;
     case O_CONVOLVE: if (!s.populated || s.conv >= 2) return -1; s.conv++; s.convseq += ((s.perm && s.ndim() >= 2) ? '1' : '0'); return 0;   // dimension 0 of the current labelling
-    case O_PERMUTE: if (!s.populated) return -1; if (s.ndim() >= 2) s.perm = !s.perm; return 0;
-    case O_PERMUTE_BAD: if (!s.populated) return -1; return 1;
+    case O_CONVOLVE_BAD_DIM: return 1;                                   // a dimension that does not exist (for an empty table: dimension 0) is invalid input
+    case O_CONVOLVE_ONE_KNOT: if (!s.populated) return -1; return 1;     // a kernel needs at least two knots
+    case O_PERMUTE: if (s.populated && s.ndim() >= 2) s.perm = !s.perm; return 0;   // on an empty table the empty permutation is the identity: a no-op
+    case O_PERMUTE_BAD: return 1;
     case O_MOVE_CONSTRUCT: t = s; s = Sym(); return 0;
     case O_MOVE_ASSIGN: std::swap(s, t); return 0;   // implemented as a swap: the source keeps the target's former contents
     case O_SELF_ASSIGN: return 0;
@@ -110,6 +112,8 @@ static bool real_step(Real& r, const Op& op, std::string& msg) {
       case O_WKEY_BAD: s.write_key("ORDER9", std::string("x")); break;
       case O_RKEY1: s.remove_key("K1"); break;
       case O_CONVOLVE: { double k[2] = {-0.25, 0.25}; s.convolve(0, k, 2); break; }
+      case O_CONVOLVE_BAD_DIM: { double k[2] = {-0.25, 0.25}; s.convolve(s.get_ndim(), k, 2); break; }
+      case O_CONVOLVE_ONE_KNOT: { double k[1] = {0.0}; s.convolve(0, k, 1); break; }
       case O_PERMUTE: { std::vector<size_t> p; for (uint32_t i = s.get_ndim(); i-- > 0;) p.push_back(i); s.permuteDimensions(p); break; }
       case O_PERMUTE_BAD: { std::vector<size_t> p(s.get_ndim(), 0); p.push_back(0); s.permuteDimensions(p); break; }
       case O_MOVE_CONSTRUCT: { r.o[1 - op.obj].reset(); r.o[1 - op.obj].reset(new TT(std::move(s))); break; }
@@ -225,7 +229,7 @@ int main(int argc, char** argv) {
   vf::Harness h("C20", argc, argv);
   H = &h;
   h.meta("level", "model_checking");
-  h.meta("rule", "breadth-first search over operation histories on two real splinetable<TrackAlloc> objects: read_fits_mem of two valid files and a corrupt one, read_fits of a missing file, valid and invalid fit, write_key (two keys, one reserved), remove_key, convolve (<=2 per object), valid and invalid permutation, move construction, move assignment, self assignment, == / !=, write_fits_mem, write_fits to an unwritable path, evaluation, destroy+recreate; state = pair of abstract object states (EMPTY or base table x convolutions x permutation flag, plus the ordered key list), deduplicated, explored to a depth bound with every transition replaying its shortest history on fresh objects; a symbolic reference model predicts for every step whether it must throw and the resulting abstract state; after every step: structural soundness, populated/empty, key store, equality operators, route independence of the contents of an abstract state, allocator ledger (the two objects use different arenas of a stateful allocator; every block returned once, with its size and type, through an allocator instance of the arena it came from) and, after destroying both objects, an empty ledger; for every non-failing transition additionally the k-th allocation of the operation is made to fail for every k: the object must be unchanged or empty, the other object untouched, and a suffix battery (evaluate, re-serialise, move, compare, destroy) must be clean with a balanced ledger");
+  h.meta("rule", "breadth-first search over operation histories on two real splinetable<TrackAlloc> objects: read_fits_mem of two valid files and a corrupt one, read_fits of a missing file, valid and invalid fit, write_key (two keys, one reserved), remove_key, convolve (<=2 per object), convolve of a dimension that does not exist (also on an empty object) and with a one-knot kernel, valid and invalid permutation (also on an empty object: the empty permutation is a no-op, anything else is rejected), move construction, move assignment, self assignment, == / !=, write_fits_mem, write_fits to an unwritable path, evaluation, destroy+recreate; state = pair of abstract object states (EMPTY or base table x convolutions x permutation flag, plus the ordered key list), deduplicated, explored to a depth bound with every transition replaying its shortest history on fresh objects; a symbolic reference model predicts for every step whether it must throw and the resulting abstract state; after every step: structural soundness, populated/empty, key store, equality operators, route independence of the contents of an abstract state, allocator ledger (the two objects use different arenas of a stateful allocator; every block returned once, with its size and type, through an allocator instance of the arena it came from) and, after destroying both objects, an empty ledger; for every non-failing transition additionally the k-th allocation of the operation is made to fail for every k: the object must be unchanged or empty, the other object untouched, and a suffix battery (evaluate, re-serialise, move, compare, destroy) must be clean with a balanced ledger");
   h.meta("assumption", "move assignment is implemented as a swap; the model accepts that the source then holds the target's former contents (nothing is leaked) rather than being empty");
   h.meta("assumption", "allocation faults are injected through the allocator template parameter only (scratch memory obtained with new/malloc inside the library is not failed)");
   h.meta("require_states", "50"); h.meta("require_allocation_fault_runs", "200");
